@@ -215,6 +215,7 @@ class Obligation:
 
 
 _OBLS: list[Obligation] = []
+_NO_RETRY: list[str] = []
 _AXIOMS: list = []
 _TIMEOUT_MS = 10000
 
@@ -351,6 +352,22 @@ def _relevant_slice(ob):
     return [p for idx, (p, _) in enumerate(syms) if chosen[idx]]
 
 
+
+
+def _guarded_check(solver, budget_ms):
+    """solver.check() with a watchdog: z3 does not always honour its own timeout (preprocessing of lambdas/quantifiers);
+    a timer thread interrupts the context after budget + 5 s, which makes check() return unknown."""
+    import threading
+    t = threading.Timer(budget_ms / 1000.0 + 5.0, lambda: solver.ctx.interrupt())
+    t.daemon = True
+    t.start()
+    try:
+        return solver.check()
+    except z3.Z3Exception:
+        return z3.unknown
+    finally:
+        t.cancel()
+
 def _solve(ob, axioms, extra, timeout_ms):
     s = z3.Solver()
     s.set('timeout', timeout_ms)
@@ -361,7 +378,7 @@ def _solve(ob, axioms, extra, timeout_ms):
     for p in ob.pc:
         s.add(p)
     s.add(z3.Not(ob.goal))
-    return s, s.check()
+    return s, _guarded_check(s, timeout_ms)
 
 
 def _check_one(i: int):
@@ -383,7 +400,7 @@ def _check_one(i: int):
         for p in ob.pc:
             if not _hq(p):
                 s0.add(p)
-        r0 = s0.check()
+        r0 = _guarded_check(s0, 2000)
         if r0 == z3.unsat:
             return i, 'unsat', None, time.time() - t0, 'z3', None
         if all(not _hq(p) for p in ob.pc):
@@ -400,7 +417,7 @@ def _check_one(i: int):
         for p in qf_pc:
             s0.add(p)
         s0.add(z3.Not(ob.goal))
-        if s0.check() == z3.unsat:
+        if _guarded_check(s0, min(_TIMEOUT_MS, 3000)) == z3.unsat:
             return i, 'unsat', None, time.time() - t0, 'z3 (quantifier-free slice)', None
     # phase R: the goal-relevant slice of the path condition (conjuncts connected to the goal through shared uninterpreted symbols).
     # If that slice is quantifier-free, its verdict is final: unsat is sound (fewer assumptions); sat gives a counter-model of the
@@ -418,7 +435,7 @@ def _check_one(i: int):
         for p in rel:
             sr.add(p)
         sr.add(z3.Not(ob.goal))
-        rr = sr.check()
+        rr = _guarded_check(sr, min(_TIMEOUT_MS, 5000))
         if rr == z3.unsat:
             return i, 'unsat', None, time.time() - t0, 'z3 (goal-relevant slice)', None
         if rr == z3.sat and not _has_quantifier(ob.goal):
@@ -435,12 +452,25 @@ def _check_one(i: int):
                 s2.add(a)
             for p in rest_qf:
                 s2.add(p)
-            r2 = s2.check()
+            r2 = _guarded_check(s2, 3000)
             if r2 == z3.unsat:
                 return i, 'unsat', None, time.time() - t0, 'z3 (path condition inconsistent: infeasible path)', None
             rest_all_decidable = all(not _has_forall_exists(p) for p in ob.pc if p.get_id() not in relids)
             if r2 == z3.sat and rest_all_decidable:
                 return i, 'sat', mtxt, time.time() - t0, 'z3 (counter-model of the goal-relevant, quantifier-free slice of the path condition)', None
+    # phase R2: the goal-relevant slice even when it contains quantified conjuncts: fewer (irrelevant) quantified facts, unsat is sound
+    if os.environ.get('PYVC_NO_SLICE') != '1' and rel is not None and len(rel) < len(ob.pc):
+        sr2 = z3.Solver()
+        sr2.set('timeout', max(2000, _TIMEOUT_MS // 2))
+        for a in ground_ax:
+            sr2.add(a)
+        for a in (_ground_injectivity(list(rel) + [ob.goal]) if quant_ax else []):
+            sr2.add(a)
+        for p in rel:
+            sr2.add(p)
+        sr2.add(z3.Not(ob.goal))
+        if _guarded_check(sr2, max(2000, _TIMEOUT_MS // 2)) == z3.unsat:
+            return i, 'unsat', None, time.time() - t0, 'z3 (goal-relevant slice incl. quantified assumptions)', None
     # phase 1: quantifier-free axioms + ground injectivity instances (fewer axioms: unsat is sound, sat is a candidate)
     s, r = _solve(ob, ground_ax, _ground_injectivity(list(ob.pc) + [ob.goal]) if quant_ax else [], _TIMEOUT_MS)
     cand_model = None
@@ -466,6 +496,10 @@ def _check_one(i: int):
     else:
         verdict = 'unknown'
         reason = s.reason_unknown()
+        import re as _re
+        if any(_re.fullmatch(pat, ob.name) for pat in _NO_RETRY):
+            # an obligation of a listed, open known finding: it is expected to stay open; do not spend the retry budgets on it
+            return i, verdict, None, time.time() - t0, solver, reason
         # before giving up (and before a previously discharged clause is reported as regressed): one more attempt with a 3x budget
         s3, r3 = _solve(ob, ground_ax, _ground_injectivity(list(ob.pc) + [ob.goal]) if quant_ax else [], _TIMEOUT_MS * 3)
         if r3 == z3.unsat:
